@@ -269,6 +269,9 @@ func Sleep(d time.Duration) { ClockAdvance(d) }
 func NowNs() int64 { mu.Lock(); defer mu.Unlock(); return vnow }
 func Yield()       {}
 
+// YieldOn is a scheduling point for an operation on the object behind ptr (write: it may change what others observe).
+func YieldOn(ptr any, write bool) {}
+
 // TimeNow / TimeSince: the virtual clock as time.Time, used by native replays (drivers' time.Now()/time.Since are
 // routed here through the replay overlay).
 func TimeNow() time.Time                  { return time.Unix(0, NowNs()) }
@@ -395,13 +398,21 @@ func CtxBackground() context.Context { return bgCtx }
 func (c *vctx) Deadline() (time.Time, bool) { return c.deadline, c.hasDL }
 func (c *vctx) Value(key any) any           { return nil }
 
+// root: cancellation propagates down a context tree, so the tree is one synchronisation object.
+func (c *vctx) root() *vctx {
+	for c.parent != nil {
+		c = c.parent
+	}
+	return c
+}
+
 func (c *vctx) Done() <-chan struct{} {
 	c.refresh()
 	return c.done
 }
 
 func (c *vctx) Err() error {
-	Yield()
+	YieldOn(c.root(), false)
 	c.refresh()
 	return c.err
 }
@@ -467,13 +478,13 @@ func finishChild(c *vctx) {
 func CtxWithCancel(parent context.Context) (context.Context, context.CancelFunc) {
 	c := newChild(parent)
 	finishChild(c)
-	return c, func() { Yield(); c.cancel(context.Canceled, nil, false) }
+	return c, func() { YieldOn(c.root(), true); c.cancel(context.Canceled, nil, false) }
 }
 
 func CtxWithCancelCause(parent context.Context) (context.Context, context.CancelCauseFunc) {
 	c := newChild(parent)
 	finishChild(c)
-	return c, func(cause error) { Yield(); c.cancel(context.Canceled, cause, false) }
+	return c, func(cause error) { YieldOn(c.root(), true); c.cancel(context.Canceled, cause, false) }
 }
 
 func CtxWithDeadline(parent context.Context, d time.Time) (context.Context, context.CancelFunc) {
@@ -482,7 +493,7 @@ func CtxWithDeadline(parent context.Context, d time.Time) (context.Context, cont
 		c.deadline, c.hasDL = d, true
 	}
 	finishChild(c)
-	return c, func() { Yield(); c.cancel(context.Canceled, nil, false) }
+	return c, func() { YieldOn(c.root(), true); c.cancel(context.Canceled, nil, false) }
 }
 
 func CtxWithTimeout(parent context.Context, d time.Duration) (context.Context, context.CancelFunc) {
